@@ -72,7 +72,13 @@ class Type(Scope):
     def require_inherit(self):
         return True
 
-    def get_overridden(self, field_name):
+    def get_overridden(self, field_name, visited=None):
+        # Types that (erroneously) extend each other must not be visited twice
+        if visited is None:
+            visited = []
+        if any(self is obj for obj in visited):
+            return []
+        visited.append(self)
         ret_list = []
         field_name = field_name.lower()
         for child in self.children:
@@ -80,7 +86,7 @@ class Type(Scope):
                 ret_list.append(child)
                 break
         if self.inherit_var is not None:
-            ret_list += self.inherit_var.get_overridden(field_name)
+            ret_list += self.inherit_var.get_overridden(field_name, visited)
         return ret_list
 
     def check_valid_parent(self):
